@@ -288,53 +288,54 @@ func (node *Node) ProcessBlock(ctx context.Context, block wire.Block) error {
 			inMemPool = node.memPool.RemoveTransaction(*txid)
 		}
 
+		// Check for transactions in the mempool with conflicting inputs (double spends). This is
+		// done for every tx in the block, whether or not it was seen before it confirmed.
+		isSafe := true
+		for _, confHash := range node.memPool.Conflicting(tx) {
+			if confHash.Equal(txid) {
+				continue // this tx itself, when it was not removed from the mempool above
+			}
+			isSafe = false
+
+			if containsHash(confHash, unconfirmed) {
+				// Only send for txs that previously matched filters.
+
+				// Mark cancelled
+				txState, err := handlersstorage.FetchTxState(ctx, node.store, confHash)
+				if err != nil {
+					node.txs.ReleaseUnconfirmed(ctx)
+					return errors.Wrap(err, "fetch tx state")
+				}
+
+				txState.State.Safe = false
+				txState.State.UnSafe = true
+				txState.State.Cancelled = true
+
+				if err := handlersstorage.SaveTxState(ctx, node.store, txState); err != nil {
+					node.txs.ReleaseUnconfirmed(ctx)
+					return errors.Wrap(err, "save tx state")
+				}
+
+				// Send update
+				update := &client.TxUpdate{
+					TxID:  confHash,
+					State: txState.State,
+				}
+				for _, handler := range node.handlers {
+					handler.HandleTxUpdate(ctx, update)
+				}
+			}
+		}
+
 		if inUnconfirmed {
 			// Already seen and marked relevant
 			merkleTree.AddMerkleProof(*txid)
 			txs = append(txs, tx)
 			txsIsNew = append(txsIsNew, false)
-			txsIsSafe = append(txsIsSafe, true)
+			txsIsSafe = append(txsIsSafe, isSafe)
 
 		} else if !inMemPool {
 			// Not seen yet
-			isSafe := true
-
-			// Transaction wasn't in the mempool.
-			// Check for transactions in the mempool with conflicting inputs (double spends).
-			if conflicting := node.memPool.Conflicting(tx); len(conflicting) > 0 {
-				isSafe = false
-				for _, confHash := range conflicting {
-					if containsHash(confHash, unconfirmed) {
-						// Only send for txs that previously matched filters.
-
-						// Mark cancelled
-						txState, err := handlersstorage.FetchTxState(ctx, node.store, confHash)
-						if err != nil {
-							node.txs.ReleaseUnconfirmed(ctx)
-							return errors.Wrap(err, "fetch tx state")
-						}
-
-						txState.State.Safe = false
-						txState.State.UnSafe = true
-						txState.State.Cancelled = true
-
-						if err := handlersstorage.SaveTxState(ctx, node.store, txState); err != nil {
-							node.txs.ReleaseUnconfirmed(ctx)
-							return errors.Wrap(err, "save tx state")
-						}
-
-						// Send update
-						update := &client.TxUpdate{
-							TxID:  confHash,
-							State: txState.State,
-						}
-						for _, handler := range node.handlers {
-							handler.HandleTxUpdate(ctx, update)
-						}
-					}
-				}
-			}
-
 			if node.IsRelevant(ctx, tx) {
 				// Add to txs for block
 				if _, _, err := node.txs.Add(ctx, *txid, true, true, height); err != nil {
